@@ -140,10 +140,11 @@ pub fn behaviour() -> Behaviour {
         cfg,
         adjust,
         render,
-        quick: 4000,
+        quick: 7000,
         thorough: 20000,
         batch: 25,
         assumptions: &["what the variant prefix looks like is not fixed by the statement and not by the oracle"],
         miri_units: 0,
+        extra: None,
     }
 }
